@@ -64,6 +64,10 @@ def main():
         run_checkables,
     )
 
+    from vf import xhpatch
+
+    xhpatch.install()
+
     if a.verbose:
         from crosshair.util import set_debug
 
